@@ -144,10 +144,24 @@ def gen_case(rng, tier, idx):
                         "haltingTimeLength": rng.choice([0, 1, 2])}
         for name in rng.sample(["HALT0", "HALT1"], 2):
             rng.choice(cfg["simulation"]["sessions"]).setdefault("events", []).append(name)
+        # lines that can be decided exactly (dyadic rates, power-of-two time-0 prices and ticks): with two rule objects a
+        # round on a line that cannot be decided from outside ends the judging of the run
+        r0 = rng.choice([0.0, 0.0078125, 0.015625, 0.00390625])
+        cfg["HALT0"]["triggerChangeRate"] = r0
+        cfg["HALT1"]["triggerChangeRate"] = max(r0, 0.0078125) * rng.choice([4.0, 8.0])
+        for m_ in mk:
+            cfg[m_]["tickSize"] = rng.choice([1.0, 0.5])
+            cfg[m_]["marketPrice"] = rng.choice([128.0, 256.0, 512.0])
     if idx % 11 == 6 and ns >= 2:
         # the same rule listed under two sessions: two rule objects with the same settings, each with its own count
         halts = [k for k in cfg if k.startswith("HALT")]
         name = halts[0]
+        for k in halts:
+            if cfg[k]["triggerChangeRate"] not in (0.0, 0.0078125, 0.015625, 0.03125, 0.25, 0.5, 1.0, 1.5):
+                cfg[k]["triggerChangeRate"] = rng.choice([0.0078125, 0.015625, 0.03125])
+        for m_ in mk:
+            cfg[m_]["tickSize"] = rng.choice([1.0, 0.5])
+            cfg[m_]["marketPrice"] = rng.choice([128.0, 256.0, 512.0])
         for s_ in cfg["simulation"]["sessions"]:
             if name not in s_.get("events", []):
                 s_.setdefault("events", []).append(name)
@@ -375,6 +389,14 @@ class C16Monitor:
                     break
                 elif dev > thr * (1 - 1e-9) and not exact:
                     res.count("rounds_on_the_line_not_judged")
+                    if len(self.rule_of(m.name)) > 1:
+                        # several rule objects watch this market and the round landed on the line of one of them: which
+                        # object halts (if any) decides the length of the halt and whose count goes up, and that
+                        # cannot be told from outside - the rest of this run is not judged (the profiles with several
+                        # rule objects use exactly decidable lines, so this stays rare)
+                        res.count("runs_not_judged_further:round_on_the_line_of_one_of_several_rule_objects")
+                        self.dead = True
+                        return
                     self.unsure[m.name] = (t, r)
                     break
                 else:
